@@ -27,7 +27,7 @@ ASSUMPTIONS = [
     "myokit's SBML importer naming convention (c.s_amount, c.size, global.p)"]
 REQUIRED = ['gen', 'lib:pk', 'lib:koch', 'lib:koch_r', 'lib:erlotinib', 'sens', 'reduced', 'renamed', 'tied_times',
             'intermediate_output', 'order_differs', 'model_order_differs', 'derived_const', 'refix', 'refix:same_count',
-            'admin:indirect', 'rename_then_admin', 'dosed:sens', 'dosed:global_state', 'negative_initial_value']
+            'admin:indirect', 'rename_then_admin', 'dosed:sens', 'dosed:global_state', 'negative_initial_value', 'regimen_through_reduced_model', 'regimen_replaced:zero_dose']
 LIBS = ['pk', 'koch', 'koch_r', 'erlotinib']
 
 
@@ -66,6 +66,12 @@ def _spec(draw):
             admin['reg'] = dict(dose=draw(gen.logu(0.5, 5.0)), start=draw(gen.logu(0.05, 1.0)),
                                 duration=draw(gen.logu(0.02, 0.3)), period=draw(gen.logu(0.5, 2.0)),
                                 num=draw(st.integers(1, 3)))
+    if admin is not None and admin.get('reg'):
+        admin['reg_late'] = draw(st.booleans())
+        # another regimen was scheduled on the same model before (treated arm, then control arm with a dose of zero)
+        admin['reg_decoy'] = bool(gen.chance(draw, 0.4))
+        if admin['reg_decoy'] and gen.chance(draw, 0.5):
+            admin['reg']['dose'] = 0.0
     names = sbmlgen.published_parameters(ms, admin)
     theta = gen.distinct(draw(gen.vec(gen.logu(0.1, 3.0), len(names))))
     neg = []
@@ -129,6 +135,10 @@ def classify(spec):
             labs.append('admin:' + ('direct' if spec['admin']['direct'] else 'indirect'))
             if spec['admin'].get('reg'):
                 labs.append('dosed')
+                if spec['admin'].get('reg_decoy'):
+                    labs.append('regimen_replaced')
+                    if spec['admin']['reg']['dose'] == 0:
+                        labs.append('regimen_replaced:zero_dose')
                 if spec['admin']['comp'] >= len(ms['comps']):
                     labs.append('dosed:global_state')
                 if spec['sens']:
@@ -302,8 +312,11 @@ def check(case):
                                      direct=admin['direct'])
             if admin.get('reg'):
                 r = admin['reg']
-                M.set_dosing_regimen(dose=r['dose'], start=r['start'], duration=r['duration'], period=r['period'],
-                                     num=r['num'])
+                if admin.get('reg_decoy'):
+                    M.set_dosing_regimen(dose=3.3, start=0.1, duration=0.2, period=0.5, num=2)
+                if not (s['fixed'] and admin.get('reg_late')):
+                    M.set_dosing_regimen(dose=r['dose'], start=r['start'], duration=r['duration'], period=r['period'],
+                                         num=r['num'])
                 events = sbmlgen.regimen_events(r['dose'], r['start'], r['duration'], r['period'], r['num'],
                                                 float(times[-1]) + 1.0)
             names = sbmlgen.published_parameters(ms, admin)
@@ -353,6 +366,12 @@ def check(case):
             free = [i for i in range(len(names)) if str(i) not in s['fixed']]
             case.equal(obj.parameters(), [pub_names[i] for i in free], 'free parameter names')
             case.equal(obj.n_parameters(), len(free), 'free parameter count')
+            if admin and admin.get('reg') and admin.get('reg_late'):
+                # the regimen is set through the reduced model (parameters were fixed first)
+                r = admin['reg']
+                obj.set_dosing_regimen(dose=r['dose'], start=r['start'], duration=r['duration'], period=r['period'],
+                                       num=r['num'])
+                case.labels.append('regimen_through_reduced_model')
         if 'reduce' not in case.checked:
             return
 
